@@ -86,3 +86,367 @@ Proof.
   remember (Qabs (d - d0)) as A eqn:EA. clear EA Hn P0.
   nra.
 Qed.
+
+(* ---------- both kinds of channel count round(duration * SR) points ---------- *)
+Lemma blueprint_points : forall b s d,
+  sr b = VNum s -> bp_duration b = Ok d -> bp_points b = Ok (rnd (d * s)).
+Proof. intros b s d Hs Hd. unfold bp_points. rewrite Hs, Hd. reflexivity. Qed.
+
+Lemma array_points : forall arrs s w,
+  arr_wfm arrs = Ok w -> ~ s == 0 -> (0 <= rle_len w)%Z ->
+  ch_duration (mkCh (KArr arrs (Some (VNum s))) None) = Ok (inject_Z (rle_len w) / s) /\
+  rnd (inject_Z (rle_len w) / s * s) = rle_len w.
+Proof.
+  intros arrs s w Hw Hs _. split.
+  - unfold ch_duration. cbn [ckind]. rewrite Hw. cbn [bind].
+    destruct (Qeq_bool s 0) eqn:E; [apply Qeq_bool_iff in E; contradiction | reflexivity].
+  - apply rnd_whole. field. exact Hs.
+Qed.
+
+(* ---------- forged length = BluePrint.points ---------- *)
+Lemma forged_length : forall b s rs ns d f,
+  sr b = VNum s -> 0 < s -> resolve_waits b = Ok rs -> int_durs s rs = Ok ns -> sum_vals rs = Ok d ->
+  has_wait b = true \/ rs = durs b ->
+  Forall (fun v => exists q m, v = VNum q /\ q * s == inject_Z m) rs ->
+  forge_bp_with b s (durs b) = Ok f ->
+  bp_points b = Ok (fN f) /\ length (fm1 f) = Z.to_nat (fN f) /\ length (fm2 f) = Z.to_nat (fN f) /\
+  d * s == inject_Z (fN f).
+Proof.
+  intros b s rs ns d f Hsr Hpos Hres Hint Hsum Hcase Hwhole Hforge.
+  destruct (forge_counts b s (durs b) f Hforge) as (rs' & ns' & Hres' & Hint' & _ & _ & _ & HN & _).
+  unfold resolve_waits in Hres. rewrite Hres in Hres'. injection Hres' as <-.
+  rewrite Hint in Hint'. injection Hint' as <-.
+  assert (bp_duration b = Ok d) as Hdur.
+  { unfold bp_duration. destruct (has_wait b) eqn:Ew.
+    - unfold resolve_waits. rewrite Hres. cbn [bind]. exact Hsum.
+    - destruct Hcase as [Hc | Hc]; [discriminate | rewrite <- Hc; exact Hsum]. }
+  pose proof (points_gen s rs ns d Hint Hsum Hwhole) as Hpts.
+  destruct (forge_lengths unit (fun k => repeat tt (Z.to_nat (bn k))) b s (durs b) f
+              (fun k => repeat_length tt (Z.to_nat (bn k))) Hforge) as (_ & L1 & L2 & _).
+  rewrite HN. split; [| split; [| split]].
+  - rewrite (blueprint_points b s d Hsr Hdur). f_equal. apply rnd_whole. exact Hpts.
+  - rewrite L1, HN. reflexivity.
+  - rewrite L2, HN. reflexivity.
+  - exact Hpts.
+Qed.
+
+(* ---------- raw arrays come back as stored ---------- *)
+Lemma arrays_as_stored : forall e c arrs asr fl out,
+  In (c, mkCh (KArr arrs asr) fl) (edata e) -> el_get_arrays e false = Ok out -> In (c, OArr arrs None) out.
+Proof.
+  intros e c arrs asr fl out Hin Hget. unfold el_get_arrays in Hget.
+  apply mapM_inv in Hget.
+  destruct (Forall2_in_l _ _ _ _ Hget Hin) as (y & Hy & HR).
+  cbn [snd fst] in HR. unfold ch_arrays in HR. cbn [ckind andb bind] in HR.
+  injection HR as <-. exact Hy.
+Qed.
+
+(* ---------- addArray ---------- *)
+Lemma add_markers_bad N : forall ms acc,
+  (exists n a, In (n, a) ms /\ rle_len a <> N) -> snd (add_markers N ms acc) = false.
+Proof.
+  induction ms as [|[n0 a0] t IH]; intros acc (n & a & Hin & Hne).
+  - contradiction.
+  - cbn [add_markers]. destruct (rle_len a0 =? N)%Z eqn:E; [| reflexivity].
+    apply IH. destruct Hin as [Heq | Hin].
+    + injection Heq as -> ->. apply Z.eqb_eq in E. contradiction.
+    + exists n, a. split; assumption.
+Qed.
+
+Lemma add_array_checks_markers : forall e c w SR ms,
+  (exists n a, In (n, a) ms /\ rle_len a <> rle_len w) -> snd (el_add_array e c w SR ms) = Some EValue.
+Proof.
+  intros e c w SR ms H. unfold el_add_array.
+  pose proof (add_markers_bad (rle_len w) ms [] H) as Hb.
+  destruct (add_markers (rle_len w) ms []) as [arrs good]. cbn [snd] in Hb. subst good. reflexivity.
+Qed.
+
+Lemma aset_values {K V} (eqb : K -> K -> bool) (P : V -> Prop) k v : forall l,
+  P v -> Forall (fun p => P (snd p)) l -> Forall (fun p => P (snd p)) (aset eqb k v l).
+Proof.
+  intros l Hv. induction 1 as [|[k' v'] t Hp HF IH].
+  - cbn [aset]. constructor; [exact Hv | constructor].
+  - cbn [aset]. destruct (eqb k k').
+    + constructor; [exact Hv | exact HF].
+    + constructor; [exact Hp | exact IH].
+Qed.
+
+Lemma alookup_in {K V} (eqb : K -> K -> bool) k (v : V) : forall l,
+  alookup eqb k l = Some v -> exists k', In (k', v) l.
+Proof.
+  induction l as [|[k' v'] t IH]; cbn [alookup]; intro H; [discriminate|].
+  destruct (eqb k k').
+  - injection H as ->. exists k'. left. reflexivity.
+  - destruct (IH H) as (k'' & Hk). exists k''. right. exact Hk.
+Qed.
+
+Lemma alookup_aset_same {K V} (eqb : K -> K -> bool) k (v : V) :
+  eqb k k = true -> forall l, alookup eqb k (aset eqb k v l) = Some v.
+Proof.
+  intros Hr. induction l as [|[k' v'] t IH]; cbn [aset].
+  - cbn [alookup]. rewrite Hr. reflexivity.
+  - destruct (eqb k k') eqn:E; cbn [alookup].
+    + rewrite Hr. reflexivity.
+    + rewrite E. exact IH.
+Qed.
+
+Lemma add_markers_good N : forall ms acc,
+  Forall (fun p => rle_len (snd p) = N) ms -> Forall (fun p : str * rle => rle_len (snd p) = N) acc ->
+  exists arrs, add_markers N ms acc = (arrs, true) /\ Forall (fun p : str * rle => rle_len (snd p) = N) arrs.
+Proof.
+  induction ms as [|[n0 a0] t IH]; intros acc Hms Hacc.
+  - exists acc. split; [reflexivity | exact Hacc].
+  - apply Forall_cons_iff in Hms as [Hp Ht]. cbn [snd] in Hp. cbn [add_markers].
+    rewrite Hp, Z.eqb_refl. apply IH; [exact Ht|].
+    apply (aset_values str_eqb (fun a => rle_len a = N)); [exact Hp | exact Hacc].
+Qed.
+
+Lemma add_array_ok : forall e c w SR ms,
+  Forall (fun p => rle_len (snd p) = rle_len w) ms ->
+  exists arrs, el_add_array e c w SR ms = (el_set e c (mkCh (KArr arrs (Some SR)) None), None) /\
+               arr_wfm arrs = Ok w /\
+               forall n a, alookup str_eqb n arrs = Some a -> rle_len a = rle_len w.
+Proof.
+  intros e c w SR ms Hms.
+  destruct (add_markers_good (rle_len w) ms [] Hms (Forall_nil _)) as (arrs & Hadd & Harrs).
+  exists (aset str_eqb (S_ "wfm") w arrs). split; [| split].
+  - unfold el_add_array. rewrite Hadd. reflexivity.
+  - unfold arr_wfm. rewrite (alookup_aset_same str_eqb (S_ "wfm") w (el_str_eqb_refl _) arrs). reflexivity.
+  - intros n a Hl. apply alookup_in in Hl as (k' & Hk).
+    pose proof (aset_values str_eqb (fun a => rle_len a = rle_len w) (S_ "wfm") w arrs eq_refl Harrs) as HF.
+    rewrite Forall_forall in HF. exact (HF _ Hk).
+Qed.
+
+(* ---------- a sequence never accepts an element that fails validation ---------- *)
+Lemma sequence_validates : forall s pos e s' o,
+  seq_add_element s pos e = (s', o) ->
+  (o = None -> exists r, el_validate e = Ok r) /\ (forall er, o = Some er -> s' = s /\ el_validate e = Err er).
+Proof.
+  intros s pos e s' o H. unfold seq_add_element in H.
+  destruct (el_validate e) as [r | er0] eqn:E.
+  - unfold ok in H. injection H as <- <-. split; [intros _; exists r; reflexivity | intros er Her; discriminate].
+  - unfold fail in H. injection H as <- <-. split; [intro Hd; discriminate |].
+    intros er Her. injection Her as <-. split; reflexivity.
+Qed.
+
+(* ---------- validateDurations ---------- *)
+Lemma el_validate_unfold e ch0 chs' :
+  avals (edata e) = ch0 :: chs' ->
+  el_validate e =
+    (do SRs <- mapM ch_sr (ch0 :: chs');
+     if negb (all_eq_first val_eqb SRs) then Err EElemDur else
+     do ds <- mapM ch_duration (ch0 :: chs');
+     do atol <- (if existsb val_is_none SRs then Ok (1 # 1000000000)%Q else min_sr SRs);
+     if negb (allclose ds atol) then Err EElemDur else
+     do ns <- mapM ch_points (ch0 :: chs');
+     if negb (all_eq_first Z.eqb ns) then Err EElemDur else
+     Ok (hd VNone SRs, hd 0%Q ds)).
+Proof. intro H. unfold el_validate. rewrite H. reflexivity. Qed.
+
+Lemma all_eq_first_cons {A} (eqb : A -> A -> bool) x t :
+  all_eq_first eqb (x :: t) = true <-> forall y, In y (x :: t) -> eqb x y = true.
+Proof. unfold all_eq_first. apply forallb_forall. Qed.
+
+Lemma validate_accepted : forall e s d,
+  el_validate e = Ok (s, d) ->
+  exists n, el_points e = Ok n /\ el_sr e = Ok s /\ el_duration e = Ok d /\
+    forall c ch, In (c, ch) (edata e) -> ch_points ch = Ok n /\ exists x, ch_sr ch = Ok x /\ val_eqb s x = true.
+Proof.
+  intros e s d Hval. pose proof Hval as H.
+  destruct (avals (edata e)) as [|ch0 chs'] eqn:Echs.
+  { unfold el_validate in H. rewrite Echs in H. discriminate. }
+  rewrite (el_validate_unfold e ch0 chs' Echs) in H.
+  apply bind_ok_inv in H as (SRs & HSR & H). cbv beta in H.
+  destruct (all_eq_first val_eqb SRs) eqn:E1; cbn [negb] in H; [| discriminate].
+  apply bind_ok_inv in H as (ds & HD & H). cbv beta in H.
+  apply bind_ok_inv in H as (atol & _ & H). cbv beta in H.
+  destruct (allclose ds atol); cbn [negb] in H; [| discriminate].
+  apply bind_ok_inv in H as (ns & HN & H). cbv beta in H.
+  destruct (all_eq_first Z.eqb ns) eqn:E3; cbn [negb] in H; [| discriminate].
+  injection H as Hs Hd.
+  apply mapM_inv in HSR, HN.
+  inversion HSR as [|? s0 ? SRs' Hs0 HSR']; subst. cbn [hd] in Hval |- *.
+  inversion HN as [|? n0 ? ns' Hn0 HN']; subst.
+  exists n0. split; [| split; [| split]].
+  - unfold el_points. rewrite Hval, Echs. cbn [bind]. exact Hn0.
+  - unfold el_sr. rewrite Hval. reflexivity.
+  - unfold el_duration. rewrite Hval. reflexivity.
+  - intros c ch Hin.
+    assert (In ch (ch0 :: chs')) as Hin'.
+    { rewrite <- Echs. unfold avals. apply (in_map snd) in Hin. exact Hin. }
+    split.
+    + destruct (Forall2_in_l _ _ _ _ HN Hin') as (n & Hn & Hpn).
+      apply all_eq_first_cons with (y := n) in E3; [| exact Hn].
+      apply Z.eqb_eq in E3. subst n. exact Hpn.
+    + destruct (Forall2_in_l _ _ _ _ HSR Hin') as (x & Hx & Hsx).
+      exists x. split; [exact Hsx |].
+      apply all_eq_first_cons with (y := x) in E1; [exact E1 | exact Hx].
+Qed.
+
+(* the data the well-formedness hypothesis provides per channel: (rate, duration) *)
+Definition Rwf (ch : chentry) (p : Q * Q) : Prop :=
+  ch_sr ch = Ok (VNum (fst p)) /\ 1 <= fst p /\ ch_duration ch = Ok (snd p) /\
+  ch_points ch = Ok (rnd (snd p * fst p)).
+
+Definition gS (p : Q * Q) : val := VNum (fst p).
+Definition gN (p : Q * Q) : Z := rnd (snd p * fst p).
+
+Lemma wf_pairs : forall chs, Forall chan_wf chs -> exists ps, Forall2 Rwf chs ps.
+Proof.
+  induction 1 as [|ch chs (s & d & H1 & H2 & H3 & H4) HF (ps & IH)].
+  - exists []. constructor.
+  - exists ((s, d) :: ps). constructor; [| exact IH]. unfold Rwf. cbn [fst snd]. auto.
+Qed.
+
+Lemma no_none_rates ps : existsb val_is_none (map gS ps) = false.
+Proof. induction ps as [|p ps IH]; [reflexivity | cbn [map existsb gS val_is_none orb]; exact IH]. Qed.
+
+Lemma min_sr_cons2 q v t :
+  min_sr (VNum q :: v :: t) = (do m <- min_sr (v :: t); Ok (if Qle_bool q m then q else m)).
+Proof. reflexivity. Qed.
+
+Lemma min_sr_rates : forall ps p0, exists m, min_sr (map gS (p0 :: ps)) = Ok m /\ In m (map fst (p0 :: ps)).
+Proof.
+  induction ps as [|p1 ps IH]; intro p0.
+  - exists (fst p0). split; [reflexivity | left; reflexivity].
+  - destruct (IH p1) as (m & Hm & Hin).
+    change (map gS (p0 :: p1 :: ps)) with (VNum (fst p0) :: gS p1 :: map gS ps).
+    rewrite min_sr_cons2. change (gS p1 :: map gS ps) with (map gS (p1 :: ps)). rewrite Hm. cbn [bind].
+    destruct (Qle_bool (fst p0) m).
+    + exists (fst p0). split; [reflexivity | left; reflexivity].
+    + exists m. split; [reflexivity | right; exact Hin].
+Qed.
+
+Lemma stage1_iff chs p0 ps' :
+  Forall2 Rwf chs (p0 :: ps') ->
+  (same_rate chs <-> all_eq_first val_eqb (map gS (p0 :: ps')) = true).
+Proof.
+  intro HF. change (map gS (p0 :: ps')) with (gS p0 :: map gS ps').
+  rewrite all_eq_first_cons. change (gS p0 :: map gS ps') with (map gS (p0 :: ps')). split.
+  - intros Hsr v Hv. apply in_map_iff in Hv as (p & <- & Hp).
+    destruct (Forall2_in_r _ _ _ _ HF (or_introl eq_refl)) as (c0 & Hc0 & R0 & _).
+    destruct (Forall2_in_r _ _ _ _ HF Hp) as (c & Hc & R & _).
+    destruct (Hsr c0 c Hc0 Hc) as (x & y & Hx & Hy & Hxy).
+    rewrite R0 in Hx. rewrite R in Hy. injection Hx as <-. injection Hy as <-.
+    unfold gS. cbn [val_eqb]. apply Qeq_bool_iff. exact Hxy.
+  - intros H a b Ha Hb.
+    destruct (Forall2_in_l _ _ _ _ HF Ha) as (pa & Hpa & Ra & _).
+    destruct (Forall2_in_l _ _ _ _ HF Hb) as (pb & Hpb & Rb & _).
+    exists (fst pa), (fst pb). split; [exact Ra | split; [exact Rb |]].
+    pose proof (H (gS pa) (in_map gS _ _ Hpa)) as Ea.
+    pose proof (H (gS pb) (in_map gS _ _ Hpb)) as Eb.
+    unfold gS in Ea, Eb. cbn [val_eqb] in Ea, Eb. apply Qeq_bool_iff in Ea, Eb.
+    rewrite <- Ea, <- Eb. reflexivity.
+Qed.
+
+Lemma stage3_iff chs p0 ps' :
+  Forall2 Rwf chs (p0 :: ps') ->
+  (same_points chs <-> all_eq_first Z.eqb (map gN (p0 :: ps')) = true).
+Proof.
+  intro HF. change (map gN (p0 :: ps')) with (gN p0 :: map gN ps').
+  rewrite all_eq_first_cons. change (gN p0 :: map gN ps') with (map gN (p0 :: ps')). split.
+  - intros Hsp v Hv. apply in_map_iff in Hv as (p & <- & Hp).
+    destruct (Forall2_in_r _ _ _ _ HF (or_introl eq_refl)) as (c0 & Hc0 & _ & _ & _ & R0).
+    destruct (Forall2_in_r _ _ _ _ HF Hp) as (c & Hc & _ & _ & _ & R).
+    destruct (Hsp c0 c Hc0 Hc) as (n & Hx & Hy).
+    rewrite R0 in Hx. rewrite R in Hy. injection Hx as <-. injection Hy as Hy.
+    apply Z.eqb_eq. unfold gN. symmetry. exact Hy.
+  - intros H a b Ha Hb.
+    destruct (Forall2_in_l _ _ _ _ HF Ha) as (pa & Hpa & _ & _ & _ & Ra).
+    destruct (Forall2_in_l _ _ _ _ HF Hb) as (pb & Hpb & _ & _ & _ & Rb).
+    pose proof (H (gN pa) (in_map gN _ _ Hpa)) as Ea.
+    pose proof (H (gN pb) (in_map gN _ _ Hpb)) as Eb.
+    apply Z.eqb_eq in Ea, Eb. exists (gN p0). split.
+    + rewrite Ra. f_equal. symmetry. exact Ea.
+    + rewrite Rb. f_equal. symmetry. exact Eb.
+Qed.
+
+Lemma stage2_implied chs p0 ps' m :
+  Forall2 Rwf chs (p0 :: ps') ->
+  all_eq_first val_eqb (map gS (p0 :: ps')) = true ->
+  all_eq_first Z.eqb (map gN (p0 :: ps')) = true ->
+  In m (map fst (p0 :: ps')) ->
+  allclose (map snd (p0 :: ps')) m = true.
+Proof.
+  intros HF H1 H3 Hm.
+  change (map gS (p0 :: ps')) with (gS p0 :: map gS ps') in H1.
+  change (map gN (p0 :: ps')) with (gN p0 :: map gN ps') in H3.
+  rewrite all_eq_first_cons in H1. rewrite all_eq_first_cons in H3.
+  change (gS p0 :: map gS ps') with (map gS (p0 :: ps')) in H1.
+  change (gN p0 :: map gN ps') with (map gN (p0 :: ps')) in H3.
+  assert (forall p, In p (p0 :: ps') -> fst p0 == fst p) as Hrate.
+  { intros p Hp. pose proof (H1 _ (in_map gS _ _ Hp)) as E. unfold gS in E. cbn [val_eqb] in E.
+    apply Qeq_bool_iff in E. exact E. }
+  assert (forall p, In p (p0 :: ps') -> gN p0 = gN p) as Hcnt.
+  { intros p Hp. apply Z.eqb_eq. exact (H3 _ (in_map gN _ _ Hp)). }
+  apply in_map_iff in Hm as (pm & <- & Hpm).
+  assert (1 <= fst pm) as Hm1.
+  { destruct (Forall2_in_r _ _ _ _ HF Hpm) as (c & _ & _ & Hge & _). exact Hge. }
+  change (map snd (p0 :: ps')) with (snd p0 :: map snd ps'). unfold allclose.
+  change (snd p0 :: map snd ps') with (map snd (p0 :: ps')).
+  apply forallb_forall. intros d Hd. apply in_map_iff in Hd as (p & <- & Hp).
+  destruct (Qle_bool (Qabs (snd p - snd p0)) (fst pm + (1 # 100000) * Qabs (snd p0))) eqn:E; [reflexivity|].
+  exfalso.
+  assert (~ Qabs (snd p - snd p0) <= fst pm + (1 # 100000) * Qabs (snd p0)) as Hn.
+  { intro A. apply Qle_bool_iff in A. congruence. }
+  apply (stage2_redundant (fst pm) (snd p) (snd p0) Hm1 Hn).
+  pose proof (Hrate p Hp) as Ep. pose proof (Hrate pm Hpm) as Em. pose proof (Hcnt p Hp) as Ec.
+  unfold gN in Ec.
+  rewrite (rnd_proper (snd p * fst pm) (snd p * fst p)) by (rewrite <- Em, <- Ep; reflexivity).
+  rewrite (rnd_proper (snd p0 * fst pm) (snd p0 * fst p0)) by (rewrite <- Em; reflexivity).
+  symmetry. exact Ec.
+Qed.
+
+Lemma validate_iff : forall e,
+  edata e <> [] -> Forall chan_wf (avals (edata e)) ->
+  ((exists r, el_validate e = Ok r) <-> (same_rate (avals (edata e)) /\ same_points (avals (edata e)))) /\
+  ((exists r, el_validate e = Ok r) \/ el_validate e = Err EElemDur).
+Proof.
+  intros e Hne Hwf.
+  destruct (avals (edata e)) as [|ch0 chs'] eqn:Echs.
+  { destruct (edata e); [congruence | discriminate]. }
+  destruct (wf_pairs _ Hwf) as (ps & HF).
+  destruct ps as [|p0 ps']; [inversion HF|].
+  assert (mapM ch_sr (ch0 :: chs') = Ok (map gS (p0 :: ps'))) as M1.
+  { apply mapM_ok_map. eapply Forall2_impl2; [| exact HF]. intros a b (R & _). exact R. }
+  assert (mapM ch_duration (ch0 :: chs') = Ok (map snd (p0 :: ps'))) as M2.
+  { apply mapM_ok_map. eapply Forall2_impl2; [| exact HF]. intros a b (_ & _ & R & _). exact R. }
+  assert (mapM ch_points (ch0 :: chs') = Ok (map gN (p0 :: ps'))) as M3.
+  { apply mapM_ok_map. eapply Forall2_impl2; [| exact HF]. intros a b (_ & _ & _ & R). exact R. }
+  destruct (min_sr_rates ps' p0) as (m & Hmin & Hm).
+  pose proof (stage1_iff _ _ _ HF) as S1.
+  pose proof (stage3_iff _ _ _ HF) as S3.
+  pose proof (fun A B => stage2_implied _ _ _ m HF A B Hm) as S2.
+  rewrite (el_validate_unfold e ch0 chs' Echs), M1, M2, M3. cbn [bind].
+  rewrite no_none_rates, Hmin. cbn [bind].
+  destruct (all_eq_first val_eqb (map gS (p0 :: ps'))) eqn:E1; cbn [negb].
+  2:{ split; [| right; reflexivity]. split.
+      - intros (r & Hr). discriminate.
+      - intros (A & _). apply S1 in A. discriminate. }
+  destruct (all_eq_first Z.eqb (map gN (p0 :: ps'))) eqn:E3.
+  - rewrite (S2 eq_refl eq_refl). cbn [negb]. split; [| left; eexists; reflexivity]. split.
+    + intros _. split; [apply S1 | apply S3]; reflexivity.
+    + intros _. eexists; reflexivity.
+  - assert ((if negb (allclose (map snd (p0 :: ps')) m) then Err EElemDur
+             else if negb false then Err EElemDur else Ok (hd VNone (map gS (p0 :: ps')), hd 0 (map snd (p0 :: ps'))))
+            = @Err (val * Q) EElemDur) as ->.
+    { destruct (allclose (map snd (p0 :: ps')) m); reflexivity. }
+    split; [| right; reflexivity]. split.
+    + intros (r & Hr). discriminate.
+    + intros (_ & B). apply S3 in B. discriminate.
+Qed.
+
+(* ---------- non-vacuity ---------- *)
+Lemma element_example :
+  let b := mkBp [S_ "ramp"] [Framp] [[VNum 0; VNum 1]] [VNum (1 # 10)] [(0, 0)] [(0, 0)] [] [] (VNum 100) in
+  let e := mkEl [(CInt 1, mkCh (KBp b) None);
+                 (CStr (S_ "A"), mkCh (KArr [(S_ "wfm", [(1 # 2, 10%Z)])] (Some (VNum 100))) None)] in
+  Forall chan_wf (avals (edata e)) /\ el_validate e = Ok (VNum 100, 1 # 10) /\ el_points e = Ok 10%Z.
+Proof.
+  intros b e. split; [| split].
+  - constructor; [| constructor; [| constructor]].
+    + exists 100, (1 # 10). repeat split; try (vm_compute; reflexivity). vm_compute. discriminate.
+    + exists 100, (10 # 100). repeat split; try (vm_compute; reflexivity). vm_compute. discriminate.
+  - vm_compute. reflexivity.
+  - vm_compute. reflexivity.
+Qed.
